@@ -151,7 +151,8 @@ def parse_stdout(out):
 def run_child(job, jobdir, timeout=CHILD_TIMEOUT):
     jp = write_job(job, jobdir)
     try:
-        r = subprocess.run([sys.executable, "-m", "bvf.child", jp], cwd=common.VERIF, env=child_env(),
+        # job["optimize"]: the process runs under `python -O` (its bytecode goes to *.opt-1.pyc, asserts are stripped)
+        r = subprocess.run([sys.executable] + (["-O"] if job.get("optimize") else []) + ["-m", "bvf.child", jp], cwd=common.VERIF, env=child_env(),
                            capture_output=True, text=True, timeout=timeout)
     except subprocess.TimeoutExpired as e:
         return ChildResult("timeout", None, None, (e.stdout or b"").decode("utf-8", "replace") if isinstance(e.stdout, bytes) else (e.stdout or ""), "")
